@@ -1006,7 +1006,18 @@ func callBuiltin(caller *frame, callpos token.Pos, fn *ssa.Builtin, args []value
 			return append(args[0].([]value), s.b...)
 		}
 		// append([]T, ...[]T) []T
-		return append(args[0].([]value), args[1].([]value)...)
+		old := args[0].([]value)
+		r := append(old, args[1].([]value)...)
+		if len(old) > 0 && len(r) > 0 && &r[0] != &old[0] {
+			// the host moved the elements to a new array: struct and array
+			// elements are reference-like in this interpreter, so give the new
+			// array its own copies - pointers into the old array are stale,
+			// exactly as in the program
+			for k := range old {
+				r[k] = cloneAgg(old[k])
+			}
+		}
+		return r
 
 	case "copy": // copy([]T, []T) int or copy([]byte, string) int
 		src := args[1]
@@ -1614,4 +1625,23 @@ func isStdlibPath(p string) bool {
 		first = p[:k]
 	}
 	return !strings.Contains(first, ".")
+}
+
+// cloneAgg deep-copies the value-typed aggregates (struct, array).
+func cloneAgg(v value) value {
+	switch v := v.(type) {
+	case structure:
+		c := make(structure, len(v))
+		for k := range v {
+			c[k] = cloneAgg(v[k])
+		}
+		return c
+	case array:
+		c := make(array, len(v))
+		for k := range v {
+			c[k] = cloneAgg(v[k])
+		}
+		return c
+	}
+	return v
 }
